@@ -118,6 +118,14 @@ var constructs10 = map[string]string{
 	"derived_dual_distinct":  "SELECT DISTINCT * FROM (SELECT * FROM dual) x",
 	"cte_star_twice":         "WITH c AS (SELECT * FROM {T}), d AS (SELECT * FROM c) SELECT DISTINCT * FROM d UNION SELECT * FROM c",
 	"parallel_hash_panic":    "SELECT * FROM {T} x PARALLEL LEFT HASH_JOIN {U} y ON x.a = y.c AND kaboom(1) = 1",
+	"parallel_join_like":     "SELECT * FROM {T} x PARALLEL JOIN {U} y ON x.s LIKE y.pat OR x.s NOT LIKE y.pat2",
+	"setvar_no_vars":         "SELECT a, SETVAR('k', a) FROM {T}",
+	"getvar_no_vars":         "SELECT a, GETVAR('k') AS v FROM {T}",
+	"setvar_getvar_no_vars":  "SELECT SETVAR('k', a), GETVAR('k') AS v, SETVAR('j', GETVAR('k')) FROM {T} WHERE a > 0",
+	"cte_backref_distinct":   "WITH c AS (SELECT (SELECT `<-` AS up FROM dual) AS x FROM {T}) SELECT DISTINCT * FROM c",
+	"cte_backref_order":      "WITH c AS (SELECT (SELECT `<-` AS up FROM dual) AS x, a FROM {T}) SELECT * FROM c ORDER BY x",
+	"select_backref":         "SELECT `<-` AS up, a FROM {T}",
+	"derived_backref_union":  "SELECT * FROM (SELECT `<-` AS up FROM {T}) x UNION SELECT * FROM (SELECT `<-` AS up FROM {T}) y",
 	"parallel_join_inner":    "SELECT * FROM {T} PARALLEL JOIN {U} ON a > c",
 	"dual_subquery":          "SELECT (SELECT a FROM {T}) AS v FROM dual",
 	"select_star_alias":      "SELECT x.* FROM {T} x",
@@ -158,6 +166,8 @@ func ConstructNames() []string {
 	return out
 }
 
+var wideCounter int
+
 func doc10(kind string) map[string]any {
 	switch kind {
 	case "empty":
@@ -169,8 +179,10 @@ func doc10(kind string) map[string]any {
 			rows = append(rows, map[string]any{"a": float64(i), "s": fmt.Sprintf("s%d", i), "mixed": float64(i), "n": []any{map[string]any{"p": float64(i)}}, "o": map[string]any{"k": float64(i)}})
 		}
 		u := []any{}
-		for i := 1; i <= 20; i++ {
-			u = append(u, map[string]any{"c": float64(i * 2)})
+		wideCounter++
+		for i := 1; i <= 60; i++ {
+			// (the LIKE patterns are new to the process in every document)
+			u = append(u, map[string]any{"c": float64(i * 2), "pat": fmt.Sprintf("%%s%d_%d%%", i, wideCounter), "pat2": fmt.Sprintf("s%d%%%d", i%7, wideCounter)})
 		}
 		return map[string]any{"t": rows, "u": u}
 	case "grid":
